@@ -21,7 +21,7 @@ CASE_TIMEOUT = {'quick': 20, 'thorough': 120}
 def floors(tier):
     return {'distinct_nontrivial': 1500 if tier == 'quick' else 80000, 'generic_sw': 500, 'generic_proj': 500,
             'generic_normsq': 200, 'own_composition_compared': 1200, 'blades_dropped_by_presimplification': 200,
-            'cse_false_cases': 100, 'graded_mode_cases': 100}
+            'cse_false_cases': 100, 'graded_mode_cases': 100, 'reflected_entry_point_cases': 100}
 
 
 def plan(tier, seed):
@@ -112,6 +112,19 @@ def run_shard(shard, ctx):
                 ctx.case(cid)
                 if ctx.evaluations % 200 == 1:
                     ctx.sample({'config': name, 'op': op, 'keys_in': [list(k) for k in keysets], 'keys_out': list(r.keys())})
+                # the same operator reached through the reflected entry point (left operand not a multivector)
+                if op in ('sw', 'proj') and ctx.rng.random() < 0.15:
+                    sym = {'sw': '>>', 'proj': '@'}[op]
+                    for label, left in (('list', [a]), ('callable', (lambda a=a: a))):
+                        st3, r3 = ctx.guarded(to, lambda: eval(f'left {sym} b', {'left': left, 'b': b}))
+                        if st3 == 'ok':
+                            ctx.count('reflected_entry_point_cases')
+                            r3 = r3[0] if isinstance(r3, list) else r3
+                            if elem_diff(mv_dict(r3), mv_dict(r)):
+                                ctx.violation(f'<{label}> {sym} b differs from a {sym} b', cid + ['reflected', label], config=cfg, op=op,
+                                              keys_in=[list(k) for k in keysets], got=show_elem(mv_dict(r3)), expected=show_elem(mv_dict(r)))
+                        elif st3 == 'exc':
+                            ctx.note_raised(r3, 'reflected-' + op)
                 own = {'sw': lambda: a * b * ~a, 'proj': lambda: (a | b) * ~b, 'normsq': lambda: a * ~a}[op]
                 st2, w = ctx.guarded(to, own)
                 if st2 != 'ok':
